@@ -8,6 +8,7 @@ import SolverzModel.Driver.C07
 import SolverzModel.Driver.C06
 import SolverzModel.Driver.C12
 import SolverzModel.Driver.C11
+import SolverzModel.Driver.C09
 open Solverz Solverz.Drv
 
 structure DState where
@@ -21,6 +22,7 @@ def stepLine (st : DState) (line : String) : DState × String :=
   | "c06" :: ws => (st, C06.step ws)
   | "c12" :: ws => (st, C12.step ws)
   | "c11" :: ws => (st, C11.step ws)
+  | "c09" :: ws => (st, C09.step ws)
   | [] => (st, "")
   | _ => (st, "bad-op")
 
